@@ -251,6 +251,11 @@ def run_case(ctx, case):
                 proto.instantiate(app_id=0, arguments={})
             kept = list(proto.commands)          # the caller's own command objects
             sub = assemble_subroutine(proto)
+            if (h // 13) % 2 == 0:
+                # (every other time: what the caller's ProtoSubroutine lists AFTER it was assembled - assembling is not supposed
+                # to have rewritten the caller's program)
+                kept = list(proto.commands)
+                ctx.count("ir_proto_reused_after_it_was_assembled")
             if has_label and (h // 5) % 2 == 0:
                 # the caller reuses its command objects in a SECOND, longer program (two statements in front): assembling the first
                 # one must have left them as they were - every label of the second program resolves in the second program
